@@ -10,6 +10,7 @@ abbrev Bytes := Array UInt8
 inductive Err where
   | ioError | valueError | assertionError | structError | overflowError
   | indexError | unicodeError | keyError | typeError | recursionError | other
+  | attributeError
   deriving DecidableEq, Repr, Inhabited
 
 def Err.name : Err → String
@@ -19,5 +20,6 @@ def Err.name : Err → String
   | .unicodeError => "UnicodeError" | .keyError => "KeyError"
   | .typeError => "TypeError" | .recursionError => "RecursionError"
   | .other => "Other"
+  | .attributeError => "AttributeError"
 
 end PsdVerif
